@@ -14,7 +14,8 @@ LEVEL = "exploration"
 RULE = (
     "random sessions on tracks with segmentation and many frame-skipping edges; iou enabled "
     "from construction, or enabled / disabled+re-enabled by enable_features at random points of "
-    "the history (bulk path); after every edit, undo, redo and enable every edge's stored value "
+    "the history (bulk path), plus the scripted scenario 'disable iou, change an endpoint mask, "
+    "delete the edge or the node, enable iou, undo, redo, undo'; after every edit, undo, redo and enable every edge's stored value "
     "is compared with numpy |A&B|/|A|B| of the endpoint masks in their own frames; with "
     "probability 0.5 per step a bulk recomputation on a deep copy is compared with the stored "
     "(incrementally maintained) values. evaluations = edge comparisons; distinct = (path, "
@@ -31,6 +32,8 @@ def cfg_fn(rng):
     cfg = gen.random_config(rng, seg=True, p3d=0.2, extras=False)
     cfg.skip_prob = rng.choice([0.3, 0.5, 0.8])
     cfg.extra = ("iou",) if rng.random() < 0.6 else ()
+    # the feature stored under another key (renamed as an importer does)
+    cfg.rename = (("iou", "overlap"),) if cfg.extra and rng.random() < 0.25 else ()
     return cfg
 
 
@@ -38,13 +41,18 @@ class FeatOpGen(OpGen):
     """Adds enable/disable of iou at random points of the history."""
 
     def gen_features(self, tracks):
-        on = "iou" in tracks.annotators.features
+        ik = self.iou_key(tracks)
+        on = ik in tracks.annotators.features
         if on and self.rng.random() < 0.5:
-            return {"op": "features", "disable": ["iou"]}
-        return {"op": "features", "enable": ["iou"]}
+            return {"op": "features", "disable": [ik]}
+        return {"op": "features", "enable": [ik]}
+
+    def scenario_keys(self, tracks, enabled):
+        return [k for k in enabled if k == self.iou_key(tracks)]
 
 
-WEIGHTS = {"paint": 7, "update_attrs": 0.2, "delete_node": 4, "add_node": 4, "features": 2}
+WEIGHTS = {"paint": 7, "update_attrs": 0.2, "delete_node": 4, "add_node": 4, "features": 2,
+           "scenario": 1.0}
 
 
 def plan(tier, seed):
